@@ -1,12 +1,15 @@
 #!/bin/bash
 # usage: seed_all.sh [ids...]  -- every seeded change under /verif/seeded applied (in a scratch worktree) in turn, its property's quick check run.
+# PAR=<n> runs n of them at a time (each in its own scratch worktree and scratch output directory).
 ROOT=$(cd "$(dirname "$0")/.." && pwd)
 cd $ROOT
 OUT=${SEED_RESULTS:-$ROOT/seeded/RESULTS.txt}
 ids=${@:-$(ls seeded | grep -E '^C[0-9]+-')}
-[ $# -eq 0 ] && : > $OUT
-for id in $ids; do
-  prop=${id%%-*}
+TMPD=$(mktemp -d /tmp/seed_all.XXXXXX)
+one() { id=$1; prop=${id%%-*}
   res=$(harness/seed_run.sh $ROOT/seeded/$id/patch.diff $prop 2>&1 | head -4 | tr '\n' '|')
-  echo "$id: $res" | tee -a $OUT
-done
+  echo "$id: $res" | tee $TMPD/$id; }
+export -f one; export ROOT TMPD
+echo $ids | tr ' ' '\n' | xargs -P ${PAR:-1} -I{} bash -c 'one {}'
+if [ $# -eq 0 ]; then cat $(ls $TMPD/* | sort) > $OUT; fi
+rm -rf $TMPD
